@@ -54,6 +54,8 @@ pub enum Call {
     FailX(String),
     Cleanup(String),
     Abort,
+    /// reconsider_all_jobs(): a public debugging aid of the engine; legal at any time
+    Reconsider,
     // illegal calls (C20)
     BadStart(String),
     BadSucceed(String),
@@ -71,6 +73,7 @@ impl Call {
             Call::FailX(_) => "failx",
             Call::Cleanup(_) => "cleanup",
             Call::Abort => "abort",
+            Call::Reconsider => "reconsider",
             Call::BadStart(_) => "badstart",
             Call::BadSucceed(_) => "badsuccess",
             Call::BadFail(_) => "badfail",
@@ -89,7 +92,7 @@ impl Call {
             | Call::BadSucceed(j)
             | Call::BadFail(j)
             | Call::BadCleanup(j) => j,
-            Call::Abort | Call::BadStartup => "",
+            Call::Abort | Call::BadStartup | Call::Reconsider => "",
         }
     }
     pub fn is_misuse(&self) -> bool {
@@ -107,6 +110,7 @@ impl Call {
             "failx" => Call::FailX(j),
             "cleanup" => Call::Cleanup(j),
             "abort" => Call::Abort,
+            "reconsider" => Call::Reconsider,
             "badstart" => Call::BadStart(j),
             "badsuccess" => Call::BadSucceed(j),
             "badfail" => Call::BadFail(j),
@@ -495,6 +499,11 @@ impl<'a> Run<'a> {
                 self.b.rab = running;
                 (cls, msg)
             }
+            Call::Reconsider => {
+                let r = catch_unwind(AssertUnwindSafe(|| self.g.reconsider_all_jobs()));
+                let (cls, msg, _) = classify(r);
+                (cls, msg)
+            }
             Call::BadStartup => {
                 let r = catch_unwind(AssertUnwindSafe(|| self.g.event_startup()));
                 let (cls, msg, _) = classify(r);
@@ -664,6 +673,10 @@ fn snapshot_finished(g: &PPGEvaluator<Strat>) -> bool {
         "Finished" => true,
         _ => snap.jobs.iter().all(|j| is_finished_state(&short_state(&j.state))),
     }
+}
+
+pub fn snapshot_finished_pub(run: &Run) -> bool {
+    snapshot_finished(&run.g)
 }
 
 pub fn is_finished_state(s: &str) -> bool {
